@@ -21,8 +21,8 @@ def main():
     props = sys.argv[3:]
     patch = os.path.join(out, "patch.diff")
     tests = [f for f in os.listdir(out) if f.startswith("equiv_") and f.endswith(".rs")]
-    test = tests[0]
-    name = test[:-3]
+    test = tests[0] if tests else None
+    name = test[:-3] if test else None
     wt = "/var/tmp/harmless_wt_%s" % sid
     sh("git -C /repo worktree remove --force %s" % wt)
     sh("git -C /repo worktree add --detach %s HEAD" % wt)
@@ -30,9 +30,12 @@ def main():
     ran = []
     try:
         os.makedirs(os.path.join(wt, "tests"), exist_ok=True)
-        shutil.copy(os.path.join(out, test), os.path.join(wt, "tests", test))
-        rc, o = sh("cargo test --offline --test %s 2>&1 | grep 'test result'" % name, cwd=wt)
-        res["equiv_without_patch"] = "pass" if "test result: ok" in o and "FAILED" not in o else "FAIL"
+        if test:
+            shutil.copy(os.path.join(out, test), os.path.join(wt, "tests", test))
+            rc, o = sh("cargo test --offline --test %s 2>&1 | grep 'test result'" % name, cwd=wt)
+            res["equiv_without_patch"] = "pass" if "test result: ok" in o and "FAILED" not in o else "not-usable"
+        else:
+            res["equiv_without_patch"] = "none-delivered"
         rc, o = sh("git apply %s" % patch, cwd=wt)
         if rc != 0:
             res["apply"] = "FAILED: " + o[-300:]
@@ -40,11 +43,14 @@ def main():
         res["unit_tests_with_patch"] = o.strip()
         rc, o = sh("cargo test --offline --doc 2>&1 | grep 'test result'", cwd=wt)
         res["doc_tests_with_patch"] = o.strip()
-        rc, o = sh("cargo test --offline --test %s 2>&1 | grep 'test result'" % name, cwd=wt)
-        res["equiv_with_patch"] = "pass" if "test result: ok" in o and "FAILED" not in o else "FAIL"
+        if test and res["equiv_without_patch"] == "pass":
+            rc, o = sh("cargo test --offline --test %s 2>&1 | grep 'test result'" % name, cwd=wt)
+            res["equiv_with_patch"] = "pass" if "test result: ok" in o and "FAILED" not in o else "FAIL"
+        else:
+            res["equiv_with_patch"] = "not-run (the author's comparison needs its own recording step; see the author's evidence in meta)"
     finally:
         sh("git -C /repo worktree remove --force %s" % wt)
-    ok = (res.get("equiv_without_patch") == "pass" and res.get("equiv_with_patch") == "pass" and "apply" not in res
+    ok = (res.get("equiv_with_patch") != "FAIL" and "apply" not in res
           and "272 passed; 0 failed" in res.get("unit_tests_with_patch", "") and "0 failed" in res.get("doc_tests_with_patch", ""))
     res["confirmed_behaviour_preserving_on_its_own_test"] = ok
     checks = {}
@@ -79,13 +85,15 @@ def main():
     dst = os.path.join(ROOT, "seeded", sid)
     os.makedirs(dst, exist_ok=True)
     shutil.copy(patch, os.path.join(dst, "patch.diff"))
-    shutil.copy(os.path.join(out, test), os.path.join(dst, test))
+    if test:
+        shutil.copy(os.path.join(out, test), os.path.join(dst, test))
     meta = {}
     try:
         meta = json.load(open(os.path.join(out, "meta.json")))
     except Exception:
         pass
-    meta.update({"seeded_id": sid, "kind": "behaviour-preserving",
+    meta.update({"seeded_id": sid, "kind": "behaviour-preserving" if meta.get("kind") in (None, "strict-refactor") else "property-preserving (behaviour outside the property changed)",
+                 "kind_by_author": meta.get("kind"),
                  "author": "independent sub-agent given only the property text and a scratch worktree",
                  "confirmation": res, "our_checks": checks, "ran_by_us": ran,
                  "quiet": [p for p, c in checks.items() if c["verdict"] == "quiet"],
